@@ -25,7 +25,17 @@
    counters, results collected so far): assignments, conditions and the choice of the next
    iterator may depend on it and on the heap in an arbitrary way.  Fuel n: None = not enough fuel.
    d = remaining recursion depth (CPython's recursion limit): resuming a frame at depth 0 raises
-   (RecursionError) in the caller without entering the frame. *)
+   (RecursionError) in the caller without entering the frame.
+
+   Cell naming.  `variable()` creates a new object; its identity is an arbitrary fresh name.  The
+   machine names new cells by a counter that follows the current SEARCH PATH, exactly as
+   Sem/Machine.v does (so that both give literally the same stores): every frame carries its own
+   counter `gho e` (set from the caller's current counter when the call is made, advanced by the
+   frame's own allocations), and the counter that is current at a program point is that of the
+   innermost enclosing loop whose iterator is a suspended frame (that frame's counter at its yield),
+   else the frame's own: `knxt k e`.  Assignments and iterator expressions receive it as their first
+   argument.  It has no influence on control or on the heap discipline (all restoration theorems
+   are for arbitrary functions of it). *)
 From Coq Require Import List Arith Bool Lia.
 Import ListNotations.
 From YP Require Import Base.Str Term.Term Unify.UnifyGen.
@@ -47,14 +57,15 @@ Section Machine.
   | CSkip
   | CYield                                   (* yield False *)
   | CSeq (a b:code)
-  | CFor (ex:E -> heap -> iexpr) (body:code) (* for l in <ex>: body *)
+  | CFor (ex:nat -> E -> heap -> iexpr) (body:code) (* for l in <ex>: body *)
   | CBreak
   | CReturn
   | CRaise                                   (* raise SomeException(...) *)
-  | CAssign (f:E -> heap -> E)
+  | CAssign (f:nat -> E -> heap -> E)
   | CIf (c:E -> bool) (a:code).
 
   Variable prog : P -> code * E.            (* body and initial local state of a call *)
+  Variable gho : E -> nat.                  (* a frame's own cell counter *)
 
   Inductive iter :=
   | ILeaf (l:L)
@@ -65,6 +76,14 @@ Section Machine.
   | KNil
   | KSeq (c:code) (k:kont)
   | KLoop (it:iter) (body:code) (k:kont).
+
+  (* the cell counter that is current under the continuation k of a frame with local state e *)
+  Fixpoint knxt (k:kont) (e:E) : nat :=
+    match k with
+    | KNil => gho e
+    | KSeq _ k' => knxt k' e
+    | KLoop it _ k' => match it with ISusp kk ee => knxt kk ee | _ => knxt k' e end
+    end.
 
   Definition mkiter (x:iexpr) (h:heap) : iter :=
     match x with
@@ -87,6 +106,12 @@ Section Machine.
     | KLoop it _ k' => unwind (iclose h it) k'
     end.
 
+  (* generator.throw(exc) by the consumer: the exception is raised at the `yield` where the frame
+     is suspended and travels outwards like GeneratorExit (neither the emitted code nor the
+     builtins have an except clause around a yield); a generator that has not started is just
+     marked finished.  The exception comes back to the consumer. *)
+  Definition ithrow (h:heap) (it:iter) : heap * iter * res := (iclose h it, IDone, RRaise).
+
   Fixpoint pop_loop (k:kont) : option (iter * kont) :=
     match k with
     | KNil => None
@@ -100,7 +125,7 @@ Section Machine.
       | CSkip => cont n d h k e
       | CYield => Some (h, ISusp k e, RYield)
       | CSeq a b => exec n d h a (KSeq b k) e
-      | CFor ex body => loop n d h (mkiter (ex e h) h) body k e
+      | CFor ex body => loop n d h (mkiter (ex (knxt k e) e h) h) body k e
       | CBreak =>
           match pop_loop k with
           | None => Some (h, IDone, RStop)
@@ -108,7 +133,7 @@ Section Machine.
           end
       | CReturn => Some (unwind h k, IDone, RStop)
       | CRaise => Some (unwind h k, IDone, RRaise)
-      | CAssign f => cont n d h k (f e h)
+      | CAssign f => cont n d h k (f (knxt k e) e h)
       | CIf c a => if c e then exec n d h a k e else cont n d h k e
       end
     end
@@ -149,7 +174,7 @@ Section Machine.
       | CSkip => cont n d h k e
       | CYield => Some (h, ISusp k e, RYield)
       | CSeq a b => exec n d h a (KSeq b k) e
-      | CFor ex body => loop n d h (mkiter (ex e h) h) body k e
+      | CFor ex body => loop n d h (mkiter (ex (knxt k e) e h) h) body k e
       | CBreak =>
           match pop_loop k with
           | None => Some (h, IDone, RStop)
@@ -157,7 +182,7 @@ Section Machine.
           end
       | CReturn => Some (unwind h k, IDone, RStop)
       | CRaise => Some (unwind h k, IDone, RRaise)
-      | CAssign f => cont n d h k (f e h)
+      | CAssign f => cont n d h k (f (knxt k e) e h)
       | CIf c a => if c e then exec n d h a k e else cont n d h k e
       end.
   Proof. reflexivity. Qed.
@@ -211,6 +236,25 @@ Section Machine.
         | Some (h', it', r) => Some (h', it', [], r)
         end
     end.
+
+  (* any consumer: an arbitrary sequence of __next__ / close() (= dropping the last reference) /
+     throw() calls on one generator object, each under the heap the previous one left; a closed
+     generator is finished *)
+  Inductive fop := FNext | FClose | FThrow.
+  Fixpoint fdrive (n d:nat) (h:heap) (it:iter) (ops:list fop) : option (heap * iter * list res) :=
+    match ops with
+    | [] => Some (h, it, [])
+    | FNext :: r =>
+        match inext n d h it with
+        | None => None
+        | Some (h', it', rr) =>
+            match fdrive n d h' it' r with None => None | Some (hf, itf, rs) => Some (hf, itf, rr :: rs) end
+        end
+    | FClose :: r =>
+        match fdrive n d (iclose h it) IDone r with None => None | Some (hf, itf, rs) => Some (hf, itf, RStop :: rs) end
+    | FThrow :: r =>
+        match fdrive n d (iclose h it) IDone r with None => None | Some (hf, itf, rs) => Some (hf, itf, RRaise :: rs) end
+    end.
 End Machine.
 
 Arguments ELeaf {X P} x.
@@ -235,12 +279,15 @@ Arguments pop_loop {L X E P} k.
 Arguments iclose {L X E P} lclose h it.
 Arguments unwind {L X E P} lclose h k.
 Arguments mkiter {L X E P} mkleaf prog x h.
-Arguments exec {L X E P} mkleaf lnext lclose prog n d h c k e.
-Arguments cont {L X E P} mkleaf lnext lclose prog n d h k e.
-Arguments loop {L X E P} mkleaf lnext lclose prog n d h it body k e.
-Arguments inext {L X E P} mkleaf lnext lclose prog n d h it.
-Arguments nexts {L X E P} mkleaf lnext lclose prog n d k h it.
-Arguments exec_S {L X E P} mkleaf lnext lclose prog n d h c k e.
-Arguments cont_S {L X E P} mkleaf lnext lclose prog n d h k e.
-Arguments loop_S {L X E P} mkleaf lnext lclose prog n d h it body k e.
-Arguments inext_S {L X E P} mkleaf lnext lclose prog n d h it.
+Arguments knxt {L X E P} gho k e.
+Arguments ithrow {L X E P} lclose h it.
+Arguments exec {L X E P} mkleaf lnext lclose prog gho n d h c k e.
+Arguments cont {L X E P} mkleaf lnext lclose prog gho n d h k e.
+Arguments loop {L X E P} mkleaf lnext lclose prog gho n d h it body k e.
+Arguments inext {L X E P} mkleaf lnext lclose prog gho n d h it.
+Arguments nexts {L X E P} mkleaf lnext lclose prog gho n d k h it.
+Arguments fdrive {L X E P} mkleaf lnext lclose prog gho n d h it ops.
+Arguments exec_S {L X E P} mkleaf lnext lclose prog gho n d h c k e.
+Arguments cont_S {L X E P} mkleaf lnext lclose prog gho n d h k e.
+Arguments loop_S {L X E P} mkleaf lnext lclose prog gho n d h it body k e.
+Arguments inext_S {L X E P} mkleaf lnext lclose prog gho n d h it.
